@@ -641,6 +641,10 @@ def check_prim(ctx, p, name):
             grouped.setdefault(cls, []).append((why, vs))
         for cls, lst in sorted(grouped.items()):
             why, vs = lst[0]
+            allv = set(repr(x) for _, v2 in lst for x in v2)
+            if cls not in ("NaN", "+Inf", "-Inf"):
+                # a single failing point is named; a failing range is a different finding
+                cls = "%s[=%s]" % (cls, next(iter(allv))) if len(allv) == 1 else "%s[range]" % cls
             ctx.fail("R8.prim", name, cls, why, fn=p.fn, line=p.fn.line, inst=name,
                      detail={"cell": cls, "witness_values": [repr(x) for x in vs[:6]],
                              "source_type": p.src, "destination_type": p.dst,
@@ -728,6 +732,7 @@ def run(ctx):
     ctx.min_instances("R8.loop", 150)
     ctx.note("conversion steps decided: %d, cells evaluated: %d" % (nprim, cells))
     check_chains(ctx, prog)
+    check_switches(ctx)
 
 
 def check_loop_shape(ctx, fn, head, name, inline=False):
@@ -794,6 +799,7 @@ def check_chains(ctx, prog):
         d, X = m.groups()
         ctx.functions_analysed.add((fn.unit.name, name))
         arms = {}
+        arm_blocks = {}
         # walk blocks: condition `itype == MPI_X` true-successor contains the call
         for bid, blk in fn.blocks.items():
             c = blk.cond
@@ -806,6 +812,7 @@ def check_chains(ctx, prog):
             tb = fn.blocks[blk.succs[0]] if blk.succs[0] is not None else None
             called = [cc.get("fn") for e in (tb.elems if tb else []) for cc in walk(e) if cc.get("k") == "call"]
             arms[mt] = called
+            arm_blocks[mt] = tb
         want_types = [t for t in ITYPES]
         for mt, called in sorted(arms.items(), key=lambda kv: str(kv[0])):
             it = MPI2I.get(mt)
@@ -814,6 +821,24 @@ def check_chains(ctx, prog):
                 ctx.fail("R10.chain", name, str(mt), "unknown MPI type arm", fn=fn, line=fn.line, inst=inst)
                 continue
             want = "ncmpix_%sn_NC_%s_%s" % (d, X, it)
+            if X == "BYTE" and it == "uchar":
+                # NC_BYTE <-> unsigned char exemption: no range check exactly when format < 5
+                tb = arm_blocks[mt]
+                c2 = tb.cond if tb is not None else None
+                good = False
+                if c2 is not None and c2.get("k") == "bin" and c2.get("op") == "<" and \
+                        strip(c2["a"]).get("n") == "cdf_ver" and const_value(c2["b"]) == 5 and len(tb.succs) == 2:
+                    def cl(bid):
+                        return [cc.get("fn") for e in fn.blocks[bid].elems for cc in walk(e) if cc.get("k") == "call"]
+                    if cl(tb.succs[0]) == ["ncmpix_%sn_NC_UBYTE_uchar" % d] and cl(tb.succs[1]) == [want]:
+                        good = True
+                if good:
+                    ctx.ok("R10.chain", inst, "uchar exemption taken exactly when cdf_ver < 5")
+                    n += 1
+                else:
+                    ctx.fail("R10.chain", name, mt, "NC_BYTE/unsigned-char exemption is not `cdf_ver < 5 ? "
+                             "UBYTE_uchar : BYTE_uchar`", fn=fn, line=fn.line, inst=inst)
+                continue
             if called != [want]:
                 ctx.fail("R10.chain", name, mt, "arm for %s calls %s, expected %s" % (mt, called, want), fn=fn,
                          line=fn.line, inst=inst)
@@ -835,3 +860,81 @@ def mpi_type_name(n):
             if mm.startswith("MPI_") and mm != "MPI_Datatype":
                 return mm
     return None
+
+
+NUMERIC = ["NC_BYTE", "NC_UBYTE", "NC_SHORT", "NC_USHORT", "NC_INT", "NC_UINT", "NC_FLOAT", "NC_DOUBLE",
+           "NC_INT64", "NC_UINT64"]
+
+
+def check_switches(ctx):
+    """R10.switch: every switch over an external nc_type in the library is total
+    over the 10 numeric types, each arm only calls converters named after its own
+    label, and a switch never mixes put and get converters.  R10.fillp: the fill
+    pointer handed to the put converters in ncmpio_pack_xbuf is the variable's own
+    fill value (ncmpio_inq_var_fill), on every path."""
+    import patterns
+    import cfg
+    ctx.rule("R10.switch", "every switch over an external type with NC_<X>-named converter calls: total over "
+             "the 10 numeric types (or error default), arm label == converter's type token, one direction per switch")
+    ctx.rule("R10.fillp", "ncmpio_pack_xbuf: each ncmpii_putn_NC_* call is dominated by ncmpio_inq_var_fill(varp, p) "
+             "with p the fill pointer it passes")
+    prog = ctx.program(names=["ncmpio_util.c", "ncmpio_attr.c", "ncmpio_fill.c", "utils.c"])
+    for fn in prog.all_functions():
+        for blk, cond, arms, default in patterns.switches(fn):
+            labs = [a for a in arms if isinstance(a, str) and patterns.NC_TOKEN.fullmatch(a.replace("NC_", "NC_", 1))]
+            labs = [a for a in arms if isinstance(a, str) and a in NUMERIC + ["NC_CHAR"]]
+            if len(labs) < 5:
+                continue
+            inst = "%s:switch(%s)" % (fn.name, show(cond)[:30])
+            ctx.functions_analysed.add((fn.unit.name, fn.name))
+            missing = [t for t in NUMERIC if t not in arms]
+            bad = False
+            if missing:
+                ctx.fail("R10.switch", fn.name, "totality", "switch over %s has no case for %s" %
+                         (show(cond)[:30], ",".join(missing)), fn=fn, line=blk.tl or fn.line, inst=inst)
+                bad = True
+            dirs = set()
+            with_conv = 0
+            for lab in labs:
+                reg = patterns.arm_region(fn, blk, arms[lab])
+                # stop at the next case label: fall-through arms are not used for converters
+                names = [c.get("fn") for c in patterns.calls_in_blocks(fn, reg) if c.get("fn")]
+                conv_names = [n for n in names if patterns.nc_tokens(n) and ("putn" in n or "getn" in n)]
+                if conv_names:
+                    with_conv += 1
+                for n in conv_names:
+                    toks = set("NC_" + t for t in patterns.nc_tokens(n))
+                    if toks != {lab}:
+                        ctx.fail("R10.switch", fn.name, lab, "case %s calls %s (converter of another external type)"
+                                 % (lab, n), fn=fn, line=blk.tl or fn.line, inst=inst)
+                        bad = True
+                    dirs.add("put" if "putn" in n else "get")
+            if len(dirs) > 1:
+                ctx.fail("R10.switch", fn.name, "direction", "switch mixes put and get converters", fn=fn,
+                         line=blk.tl or fn.line, inst=inst)
+                bad = True
+            if with_conv and with_conv < len([l for l in labs if l != "NC_CHAR"]):
+                ctx.fail("R10.switch", fn.name, "arms", "only %d of %d numeric arms call a converter" %
+                         (with_conv, len(labs)), fn=fn, line=blk.tl or fn.line, inst=inst)
+                bad = True
+            if not bad:
+                ctx.ok("R10.switch", inst, "%d arms, labels match converters" % len(labs), nontrivial=with_conv > 0)
+    ctx.min_instances("R10.switch", 28)
+    # R10.fillp
+    fn = ctx.need_fn(prog, "ncmpio_pack_xbuf")
+    sites = patterns.call_sites(fn, lambda n: n.startswith("ncmpii_putn_NC_"))
+    ctx.require(len(sites) >= 10, "ncmpio_pack_xbuf: expected >= 10 ncmpii_putn_NC_* calls, found %d" % len(sites))
+    for b, i, c in sites:
+        fp = patterns.arg_var_name(c["args"][-1])
+        dom = None
+        for b2, i2, c2 in patterns.call_sites(fn, lambda n: n == "ncmpio_inq_var_fill"):
+            if cfg.pos_dominates(fn, (b2.id, i2), (b.id, i)) and patterns.arg_var_name(c2["args"][1]) == fp \
+                    and patterns.arg_var_name(c2["args"][0]) == "varp":
+                dom = c2
+        inst = "ncmpio_pack_xbuf:%s" % c["fn"]
+        if dom is None or fp is None:
+            ctx.fail("R10.fillp", fn.name, c["fn"], "fill pointer `%s` passed to %s is not set by a dominating "
+                     "ncmpio_inq_var_fill(varp, %s): an out-of-range element would not be replaced by the "
+                     "variable's fill value" % (fp, c["fn"], fp), fn=fn, line=c.get("l", 0), inst=inst)
+        else:
+            ctx.ok("R10.fillp", inst, "dominated by ncmpio_inq_var_fill(varp, %s) at line %s" % (fp, dom.get("l")))
